@@ -945,9 +945,12 @@ class CeiloChunk(AbstractChunk):
         # Loop through every group, and look for sub-layers in it ...
         for ind in range(len(self.groups)):
 
-            # Let's extract the heights of all the hits in this group ...
-            gro_heights = self.data.loc[self.data.loc[:, 'group_id'] ==
-                          self._groups.at[ind, 'cluster_id'], 'height'].to_numpy()
+            # Let's extract the heights of all the hits in this group, ordered in time (most recent
+            # hits last): the base heights of the sub-layers must be derived in the same way as
+            # the base heights that get reported, whatever the row order of the input data.
+            in_group = self.data.loc[:, 'group_id'] == self._groups.at[ind, 'cluster_id']
+            gro_hits = self.data.sort_values('dt').loc[in_group, 'height']
+            gro_heights = gro_hits.to_numpy()
 
             # Only look for multiple layers if it is worth it ...
             # 1) Layer density is large enough
@@ -992,10 +995,10 @@ class CeiloChunk(AbstractChunk):
             # Keep track of what I just found ...
             self.groups.at[ind, 'ncomp'] = ncomp
 
-            # If I need to split it, assign suitable layer ids
+            # If I need to split it, assign suitable layer ids (to the very hits, in the very
+            # order, that were fed to the Gaussian Mixture Model).
             if ncomp > 1:
-                self.data.loc[self.data.loc[:, 'group_id'] ==
-                              self._groups.at[ind, 'cluster_id'], 'layer_id'] = \
+                self.data.loc[gro_hits.index, 'layer_id'] = \
                     sub_layer_id_offset+10*ind+sub_layers_id
 
         # Deal with the points that have not been assigned a layer id yet
